@@ -1,12 +1,16 @@
-"""C01 — simulation-based check (real executor code on the simulated kernel) + monitors."""
+"""C01 — Coq theorems over coq/Model/Pool.v (lists regenerated from the source) + simulation of the real executor code with monitors."""
 from checks import simcommon as S
 
 FAMILIES = ['plain', 'kill', 'fatal', 'timeout', 'shutdown', 'killshutdown', 'resize', 'latekill', 'full']
 PER_FAMILY = (150, 4000)
 
 
+PROOF = S.pool_proof('C01', ['C01_manager_never_leaves_a_future_unresolved', 'C01_nothing_is_accepted_afterwards', 'C01_every_future_is_accounted_for', 'C01_exits_never_join_a_live_worker'],
+                    'liveness itself (every future resolves in finite time) is not a theorem: the model has no locks, so the hangs of the real code (H2, H4, H5, H7, H10) are outside it and are searched for by the simulation; proved: the safety core')
+
+
 def run(ctx):
-    return S.sim_check(ctx, FAMILIES, FAMILIES, PER_FAMILY, S.SIM_ASSUME)
+    return S.sim_check(ctx, FAMILIES, FAMILIES, PER_FAMILY, S.SIM_ASSUME, proof=PROOF)
 
 
 def replay(ctx, path):
